@@ -68,7 +68,8 @@ def render(secs):
 
 
 def gen_ops(rng, secs, species):
-    existing = [(s, k) for s, kvs in secs.items() for k, v in kvs if s != "Variables"]
+    # ([Variables] entries are items like any other: overridden, removed - the last one included - and added; they are given less weight than the sections' items)
+    existing = [(s, k) for s, kvs in secs.items() for k, v in kvs if s != "Variables" or rng.random() < 0.5]
     ops = []
     for _ in range(rng.randint(1, 5)):
         kind = rng.choice(["override", "override", "remove", "add", "add"])
@@ -93,6 +94,9 @@ def gen_ops(rng, secs, species):
             elif r < 0.85 and existing:
                 s, k = rng.choice(existing)
                 ops.append(["add", s, variant(rng, norm(k)), "as.zero" if s == "Pair" else "dup"])
+            elif r < 0.89 and secs.get("Variables"):
+                # a new variable, or one that exists already (refused)
+                ops.append(["add", "Variables", rng.choice(["extra", "scale", "unused  var"]), "3.5"])
             elif r < 0.93 and secs.get("Variables"):
                 # adding a [Pair] item whose key is the name of a variable is a plain addition (of a malformed pair key: the outcome must equal the hand edit's)
                 ops.append(["add", "Extra", secs["Variables"][0][0], "named like a variable"])
@@ -171,8 +175,17 @@ def check(run):
         reqs.append(dict(m="ini", op="apply", lines=lines_of(secs), overrides=[o for o in ops if o[0] == "override"], removes=[o for o in ops if o[0] == "remove"],
                          additional=[o for o in ops if o[0] == "add"]))
     models = lean_query(reqs)
+    # the REGENERATED override loops of _init_config_parser (Gen/Logic.lean `apply_overrides`, on the model's parser operations - `C14_code_apply_overrides` proves they are
+    # `applyOps`) answer the same requests: a disagreement with the real parser below is a broken translator tie
+    import genlib
+    gen_ok, gen_log = genlib.build_gen()
+    if not gen_ok:
+        run.tie_broken("translator", "Gen/Logic.lean (apply_overrides)", "the regenerated definitions (or their driver) do not build: " + gen_log[-600:])
+        gens = [None] * len(reqs)
+    else:
+        gens = genlib.query_gen([dict(op="apply_overrides", lines=r["lines"], overrides=r["overrides"] + r["removes"], additional=r["additional"]) for r in reqs])
     counts = collections.Counter()
-    for (secs, species, ops), mo in zip(cases, models):
+    for (secs, species, ops), mo, ge in zip(cases, models, gens):
         text = render(secs)
         ovs = [T(o[1], o[2], o[3]) for o in ops if o[0] == "override"] + [T(o[1], o[2], None) for o in ops if o[0] == "remove"]
         ads = [T(o[1], o[2], o[3]) for o in ops if o[0] == "add"]
@@ -213,6 +226,13 @@ def check(run):
             counts["tie"] += 1
             if counts["tie"] <= 2:
                 run.tie_broken("correspondence", "Atsim.applyOps vs ConfigParser(overrides=, additional=)", "file %r ops %s: impl %s model %s" % (text, ops, got, mgot))
+        if ge is not None:
+            ggot = ("config_error",) if "err" in ge else ("ok", ([[s, kvs] for s, kvs in ge["ini"]["sections"]], ge["ini"]["vars"]))
+            run.dist["translator-validation/apply_overrides"] += 1
+            if ggot[0] != got[0] or (got[0] == "ok" and ggot[1] != got[1]):
+                counts["gentie"] += 1
+                if counts["gentie"] <= 2:
+                    run.tie_broken("translator", "generated _init_config_parser override loops vs ConfigParser(overrides=, additional=)", "file %r ops %s: impl %s generated %s" % (text, ops, got, ggot))
     # ---- command line: bytes, --list-items, --item-value ---------------------------------------------------------------------------------
     nb = 0
     scen = collections.OrderedDict([("Tabulation", [["target", "LAMMPS"], ["cutoff", "4.0"], ["nr", "9"]]),
